@@ -1189,8 +1189,9 @@ class Builder(object):
             self.emit_sink(cur, w, snk, at, ending=end)
         elif end == "decoy_fieldw_prefix":
             tid = len(self.sinks)
-            self.add_snk_rule("fieldw", "snkobj.out", "target")
-            E("snkobj.outer = %s" % v, tag=("snk", tid))
+            # the rule name is a proper prefix of the written field and of no other generated name
+            self.add_snk_rule("fieldw", "snkobj.wr", "target")
+            E("snkobj.wrx = %s" % v, tag=("snk", tid))
             self.sinks.append({"id": tid, "kind": "fieldw", "pos": "target", "chain": self.c, "at": at, "ending": end})
         elif end == "decoy_method_like_call":
             tid = len(self.sinks)
@@ -1497,6 +1498,18 @@ def _restr_ok(rule, site, ignore=()):
     return True
 
 
+def _name_ok(rule_name, text, ignore):
+    """exact comparison; 'name~' in ignore: the rule name only has to occur inside the text (what a substring test
+    accepts); 'name' in ignore: any name"""
+    if "name" in ignore:
+        return True
+    if text == rule_name or _this(text) == rule_name:
+        return True
+    if "name~" in ignore and rule_name and (rule_name in text or rule_name in _this(text)):
+        return True
+    return False
+
+
 def source_match(facts, rule, site, ignore=()):
     """Does the statement at site=(file, line) match the source rule?  `ignore`: filters left out (used to name
     which field of the rule a wrongly reported statement disagrees with).  -> list of defined-variable seeds."""
@@ -1508,20 +1521,20 @@ def source_match(facts, rule, site, ignore=()):
     for kd in kinds:
         if kd == "call":
             for c in facts.calls.get(site, []):
-                if isinstance(c.func, ast.Name) and (c.func.id == name or "name" in ignore):
+                if isinstance(c.func, ast.Name) and _name_ok(name, c.func.id, ignore):
                     return ["call"]
         elif kd == "method":
             for c in facts.calls.get(site, []):
-                if isinstance(c.func, ast.Attribute) and (_txt(c.func) == name or _this(_txt(c.func)) == name or "name" in ignore):
+                if isinstance(c.func, ast.Attribute) and _name_ok(name, _txt(c.func), ignore):
                     return ["method"]
         elif kd == "param":
             for d in facts.defs.get(site, []):
                 for a in d.args.args + d.args.kwonlyargs + d.args.posonlyargs:
-                    if a.arg == name or "name" in ignore:
+                    if _name_ok(name, a.arg, ignore):
                         return ["param:" + a.arg]
         elif kd == "field":
             for a in facts.attr_loads.get(site, []):
-                if _txt(a) == name or _this(_txt(a)) == name or "name" in ignore:
+                if _name_ok(name, _txt(a), ignore):
                     return ["field:" + a.attr]
     return None
 
@@ -1538,9 +1551,9 @@ def sink_match(facts, rule, site, ignore=()):
         if kd in ("call", "method"):
             for c in facts.calls.get(site, []):
                 if kd == "call":
-                    ok = isinstance(c.func, ast.Name) and (c.func.id == name or "name" in ignore)
+                    ok = isinstance(c.func, ast.Name) and _name_ok(name, c.func.id, ignore)
                 else:
-                    ok = isinstance(c.func, ast.Attribute) and (_txt(c.func) == name or _this(_txt(c.func)) == name or "name" in ignore)
+                    ok = isinstance(c.func, ast.Attribute) and _name_ok(name, _txt(c.func), ignore)
                 if not ok:
                     continue
                 ops = []
@@ -1561,7 +1574,7 @@ def sink_match(facts, rule, site, ignore=()):
                 return ops
         elif kd == "fieldw":
             for a, val in facts.attr_stores.get(site, []):
-                if _txt(a) == name or _this(_txt(a)) == name or "name" in ignore:
+                if _name_ok(name, _txt(a), ignore):
                     ops = []
                     for t in targets:
                         if t == "arg1":
@@ -1930,7 +1943,12 @@ def _relax(facts, rules, site, matcher):
     """Smallest set of rule fields that has to be ignored for some rule to match the statement; the name of the rule
     is given up last (a rule with another name is another rule)."""
     import itertools
-    fields = ["line_num", "unit_name", "lang", "operation"]
+    # a substring relation between names is tried first only for field writes (the one matcher that tests the rule
+    # name with `in`); elsewhere generated names such as sink / sink_a2 contain each other by accident
+    if matcher is sink_match and facts.attr_stores.get(site):
+        fields = ["name~", "line_num", "unit_name", "lang", "operation"]
+    else:
+        fields = ["line_num", "unit_name", "lang", "operation", "name~"]
     for with_name in (False, True):
         for n in range(0 if with_name else 1, len(fields) + 1):
             for combo in itertools.combinations(fields, n):
